@@ -33,7 +33,9 @@ def strings(rng, n=24):
     return list(dict.fromkeys(base))[:n]
 
 TYPES = ["Int", "Float", "String", "Array", "List", "Table", "Tree", "Tuple", "Ref", "Box", "Type", "File", "Range", "Slice", "Zip", "Map",
-         "Filter", "Thread", "Mutex", "Function"]
+         "Filter", "Thread", "Mutex", "Function", "TypeError", "ValueError", "KeyError", "IOError", "Iter", "Get",
+         "Point", "Point3D", "PointCloud", "Poin", "P"]          # (names that are prefixes of each other; the last five are made at run time)
+NESTED_TYPES = ["Type", "TypeError", "Point", "Point3D", "PointCloud", "Poin", "P", "Iter", "Int"]
 
 def blobs(rng, n=16, size=16):
     z = size - 1
@@ -130,6 +132,23 @@ def seq_cmp_exec(rng):
         L.append("V %d R %d%s" % (t, n - 1, "".join(" %d %d" % (k, vals[k]) for k in order if k != drop))); g.append(t); t += 1
         intent += ["less %d %d" % (g[5], x) for x in g[:4]]
         biggroups.append(g)
+    # ordered maps whose key and value types differ in size (Int -> 16-byte struct, 12- and 5-byte struct -> Int): a binding's value
+    # lies behind a key of ITS size; the same bindings through different insertion orders are equal, a changed value is not
+    widegroups = []
+    for kx, vx in ((None, 16), (12, None), (5, None), (12, 16)):
+        if kx: d, kk = define("X", list(dict.fromkeys(blobs(rng, 6, kx))), t); L += d; t += len(kk)
+        else: kk = kt
+        if vx: d, vv = define("X", blobs(rng, 4, vx), t); L += d; t += len(vv)
+        else: vv = it[:4]
+        n = rng.randint(2, min(5, len(kk)))
+        ks = rng.sample(kk, n); vals = {k: rng.choice(vv[:3]) for k in ks}
+        g = []
+        for order in (ks, rng.sample(ks, n), list(reversed(ks))):
+            L.append("V %d R %d%s" % (t, n, "".join(" %d %d" % (k, vals[k]) for k in order))); g.append(t); t += 1
+        intent += ["same %d %d" % (g[0], x) for x in g[1:]]
+        ch = rng.choice(ks)
+        L.append("V %d R %d%s" % (t, n, "".join(" %d %d" % (k, vv[3] if k == ch else vals[k]) for k in ks))); g.append(t); t += 1
+        widegroups.append(g)
     sv = strings(rng, 6)
     sl, st = define("S", sv, t); L += sl; t += len(st)
     sseqs = []
@@ -137,7 +156,7 @@ def seq_cmp_exec(rng):
         n = rng.choice([0, 1, 2, 3])
         L.append("V %d %s %d%s" % (t, rng.choice("AL"), n, "".join(" %d" % rng.choice(st) for _ in range(n))))
         sseqs.append(t); t += 1
-    return L + [p for p in all_pairs(seqs) if int(p.split()[2]) not in dup] + all_pairs(trees) + [p for g in biggroups for p in all_pairs(g)] + intent + all_pairs(sseqs)
+    return L + [p for p in all_pairs(seqs) if int(p.split()[2]) not in dup] + all_pairs(trees) + [p for g in biggroups + widegroups for p in all_pairs(g)] + intent + all_pairs(sseqs)
 
 def hash_exec(rng):
     """equal values in different instances, allocation classes and construction histories"""
@@ -146,7 +165,7 @@ def hash_exec(rng):
     groups = []
     kinds_of = {}
     nocopy = set()
-    for kind, vals in (("I", ints(rng, 8)), ("F", floats(rng, 8) + NANS), ("S", strings(rng, 8)), ("Y", TYPES[:6]), ("X", blobs(rng, 6)),
+    for kind, vals in (("I", ints(rng, 8)), ("F", floats(rng, 8) + NANS), ("S", strings(rng, 8)), ("Y", TYPES[:6] + NESTED_TYPES), ("X", blobs(rng, 6)),
                        ("X", blobs(rng, 6, 12)), ("X", blobs(rng, 6, 5)), ("X", sblobs(rng, 8))):
         d, toks = define(kind, vals, t); L += d; t += len(toks)
         for tk in toks:
